@@ -452,7 +452,7 @@ def _do_mutate(ctx, pool, objs, kind, o):
         else:
             return
     except Exception:
-        return
+        ctx.probe('mutate_raised')       # (e.g. sorting by a ragged descriptor); the object may be half-way changed
     ctx.tick('op', op='mutate', slot=slot.sid)
     pool.sweep('mutate-between-file-ops', target=slot.sid, inplace=True)
     ctx.behaviour('mutate', kind)
